@@ -963,6 +963,7 @@ func TestVerifC17(t *testing.T) {
 
 	tmpl := newTestReconciler()
 	scheme := tmpl.Client.Scheme()
+	base := fake.NewClientBuilder().WithStatusSubresource(&sev1alpha1.PodMigrationJob{}).WithScheme(scheme).Build()
 	n := h.N(1500, 30000)
 	for idx := 0; idx < n; idx++ {
 		r := h.Begin(idx)
@@ -970,7 +971,18 @@ func TestVerifC17(t *testing.T) {
 			continue
 		}
 		w := &c17World{h: h, tmpl: tmpl}
-		w.base = fake.NewClientBuilder().WithStatusSubresource(&sev1alpha1.PodMigrationJob{}).WithScheme(scheme).Build()
+		// one fake API server for the whole run (building one costs ~20 ms); every case starts from an empty one
+		w.base = base
+		for _, o := range []client.Object{
+			&sev1alpha1.PodMigrationJob{ObjectMeta: metav1.ObjectMeta{Name: c17JobName}},
+			&sev1alpha1.Reservation{ObjectMeta: metav1.ObjectMeta{Name: c17ResvName}},
+			&corev1.Pod{ObjectMeta: metav1.ObjectMeta{Namespace: c17NS, Name: c17PodName}},
+			&corev1.Pod{ObjectMeta: metav1.ObjectMeta{Namespace: c17NS, Name: c17BPodName}},
+		} {
+			if err := base.Delete(context.TODO(), o); err != nil && !apierrors.IsNotFound(err) {
+				panic(err)
+			}
+		}
 		w.cl = interceptor.NewClient(w.base, w.funcs())
 		w.clk = fakeclock.NewFakeClock(c17T0)
 
